@@ -175,6 +175,9 @@ def apply_transform(cfg, t):
         return cfg.rename(lambda x: ("r", x))
     if name == "unfold":
         return cfg.unfold(t[1], t[2])
+    if name == "chain":
+        # two transformations in a row, the second one applied to the object the first one returned
+        return apply_transform(apply_transform(cfg, t[1]), t[2])
     if name == "sub_trim":
         # the sub-language rooted at another nonterminal, trimmed after the parent has been trimmed
         cfg.trim()
